@@ -219,6 +219,15 @@ async def _run_one(sc: Scenario) -> None:
             return
         for k, pk in enumerate(pkts):
             loop.call_later(0.01 * (k + 1), proto.pkt_received, pk)
+        if sc.flt == "snap":
+            # the application takes a snapshot while the exchange is under way: Engine._pause() ... _resume() bracket a
+            # synchronous piece of work (Gateway.get_state()), i.e. the protocol is told pause_writing() and, in the same
+            # callback, resume_writing().  Once before the first packet arrives, once between the first and the second.
+            def _snap() -> None:
+                proto.pause_writing()
+                proto.resume_writing()
+            loop.call_later(0.005, _snap)
+            loop.call_later(0.015, _snap)
 
     t = FakeTransport(proto, loop, gwy_id=sc.gw, on_write=on_write)
     if sc.flt == "known+nogw":   # an HGI80-like gateway: the transport never learns (reports) its id
